@@ -7,15 +7,39 @@ pub fn read_message<R: Read>(r: &mut R) -> Result<Message, RepeError> {
     let mut hdr_buf = [0u8; HEADER_SIZE];
     read_exact(r, &mut hdr_buf)?;
     let header = Header::decode(&hdr_buf)?;
-    let mut query = vec![0u8; header.query_length as usize];
+    let mut query = zeroed_payload(header.query_length)?;
     if !query.is_empty() {
         read_exact(r, &mut query)?;
     }
-    let mut body = vec![0u8; header.body_length as usize];
+    let mut body = zeroed_payload(header.body_length)?;
     if !body.is_empty() {
         read_exact(r, &mut body)?;
     }
     Message::new(header, query, body)
+}
+
+/// A zero-filled buffer for a payload whose length was declared by the peer.
+/// Reserves fallibly: a declared length that can never be allocated is an
+/// error on this connection, not a process abort.
+pub(crate) fn zeroed_payload(len: u64) -> Result<Vec<u8>, RepeError> {
+    let mut buf = Vec::new();
+    grow_zeroed(&mut buf, len)?;
+    Ok(buf)
+}
+
+/// Fallibly grow `buf` by `additional` zero bytes (see [`zeroed_payload`]).
+pub(crate) fn grow_zeroed(buf: &mut Vec<u8>, additional: u64) -> Result<(), RepeError> {
+    let too_large = || {
+        RepeError::Io(std::io::Error::new(
+            std::io::ErrorKind::OutOfMemory,
+            format!("cannot allocate {additional} bytes for a declared payload"),
+        ))
+    };
+    let additional = usize::try_from(additional).map_err(|_| too_large())?;
+    buf.try_reserve_exact(additional).map_err(|_| too_large())?;
+    let new_len = buf.len() + additional;
+    buf.resize(new_len, 0);
+    Ok(())
 }
 
 /// Read a full REPE message frame into `buf`, reusing its allocation across
@@ -34,8 +58,9 @@ pub fn read_message_into<R: Read>(r: &mut R, buf: &mut Vec<u8>) -> Result<(), Re
     buf.resize(HEADER_SIZE, 0);
     read_exact(r, &mut buf[..HEADER_SIZE])?;
     let header = Header::decode(&buf[..HEADER_SIZE])?;
-    let total = HEADER_SIZE + header.query_length as usize + header.body_length as usize;
-    buf.resize(total, 0);
+    // `decode` checked that 48 + query + body == length without overflow.
+    grow_zeroed(buf, header.length - HEADER_SIZE as u64)?;
+    let total = buf.len();
     read_exact(r, &mut buf[HEADER_SIZE..total])?;
     Ok(())
 }
